@@ -290,6 +290,9 @@ func ReplayFile(path string) int {
 	if r.Scenario.Mode == "redefine" {
 		fs = CheckRedef(map[string]bool{r.Property: true}, *r.Scenario, o, len(trimZeros(r.Choices)) == 0)
 	}
+	if r.Scenario.Mode == "convdiff" {
+		fs = CheckConv(map[string]bool{r.Property: true}, *r.Scenario, o)
+	}
 	for _, f := range fs {
 		fmt.Printf("  %s/%s: %s\n", f.Prop, f.Clause, f.Msg)
 	}
